@@ -115,6 +115,8 @@ def parseTy : SExp → Option Ty
   | .list (.atom "struct" :: c :: fs) => do pure (.struct (← parseCode c) (← parseFields fs))
   | .list [.atom "ptr", t] => do pure (.ptr (← parseTy t))
   | .list (.atom "iface" :: d :: alts) => do pure (.iface (← parseDen d) (← parseAlts alts))
+  | .list [.atom "custom", c, .atom "any"] => do pure (.custom (← parseCode c) none)
+  | .list [.atom "custom", c, n] => do pure (.custom (← parseCode c) (some (← parseNat n)))
   | _ => none
 def parseFields : List SExp → Option Fields
   | [] => some .nil
